@@ -14,7 +14,10 @@ DTYPES: t.Dict[str, t.Tuple[t.Any, str]] = {
     'float64': (numpy.float64, 'float'), 'float32': (numpy.float32, 'float'),
     'complex128': (numpy.complex128, 'complex'), 'bool_': (numpy.bool_, 'bool'),
     'str_': (numpy.str_, 'str'), 'bytes_': (numpy.bytes_, 'bytes'), 'generic': (numpy.generic, 'any'),
+    # abstract scalar types: any element type of the family (numpy chooses); they are not dtypes themselves
+    'floating': (numpy.floating, 'float'), 'integer': (numpy.integer, 'int'),
 }
+ABSTRACT = {'generic', 'floating', 'integer'}
 
 
 class NdNode(Node):
@@ -106,7 +109,7 @@ class NdNode(Node):
         except ValueError:
             return Rej('ragged nested sequence')
         try:
-            if self.dt is not None and self.dt != 'generic':
+            if self.dt is not None and self.dt not in ABSTRACT:
                 # the declared element type (an int outside a narrower integer dtype makes numpy raise: a rejection)
                 return Acc(numpy.array(res, dtype=DTYPES[self.dt][0]))
             return Acc(numpy.array(res))
